@@ -132,6 +132,11 @@ func genProject(r *rand.Rand, o genOpts) *projSpec {
 		for j := i + 1; j < nt; j++ {
 			if r.IntN(100) < 35 {
 				t.Deps = append(t.Deps, p.Targets[j].label())
+				sp := 0
+				if r.IntN(6) == 0 {
+					sp = 1 + r.IntN(3)
+				}
+				t.DepSpell = append(t.DepSpell, sp)
 			}
 		}
 		// generated files
